@@ -70,6 +70,13 @@ class Var:
         out = numpy.where(numpy.isnan(arr), self.fill[1] if self.fill else 0, arr)
         return out.astype(self.dtype)
 
+    def expected(self, arr, source='memory'):
+        """Values an accessor should hand back for canonical values `arr`: as stored (memory), or as xarray decodes
+        them after a netCDF round trip (an integer variable with a declared fill value comes back as float + NaN)."""
+        if source == 'disk' and not self.dtype.startswith('float') and self.fill is not None:
+            return arr.astype('float64')
+        return self.typed(arr)
+
     def data(self, model):
         arr = self.layout(model)
         if self.dtype.startswith('float'):
@@ -163,6 +170,19 @@ class Model:
             ds = ds.assign_coords(coords)
         ds.attrs.update(self.attrs)
         return ds
+
+    def materialise(self, rng, workdir, p_disk=0.25):
+        """-> (dataset, 'memory'|'disk').  With probability p_disk the dataset is written with plain xarray to netCDF
+        and reopened (lazily loaded, CF-decoded, data variables ordered before coordinates, realistic encodings)."""
+        ds = self.encode()
+        if workdir is None or rng.random() >= p_disk:
+            return ds, 'memory'
+        import os
+        import tempfile
+        fd, path = tempfile.mkstemp(suffix='.nc', dir=workdir)
+        os.close(fd)
+        ds.to_netcdf(path)
+        return xarray.open_dataset(path), 'disk'
 
     # ---- description ---------------------------------------------------------------
     def describe(self):
